@@ -708,6 +708,24 @@ fn util_case(words: &[&str]) -> Result<String, ()> {
             });
             Ok(r.unwrap_or_else(|| "68".to_string()))
         }
+        // EP w h pad p0 ... : like E, but the image's backing buffer carries `pad` extra bytes after
+        // the w * h pixels (ImageBuffer::from_raw accepts any container that is large enough)
+        "EP" => {
+            let (w, h, pad) = (int(1)? as u32, int(2)? as u32, int(3)? as usize);
+            let px = ints_from(4)?;
+            if px.len() as u64 != w as u64 * h as u64 {
+                return Err(());
+            }
+            let mut raw = image_from_packed(w, h, &px).into_raw();
+            raw.extend(std::iter::repeat(0xEEu8).take(pad));
+            let src = RgbaImage::from_raw(w, h, raw).expect("harness: the container is large enough");
+            let img = extrude_border(src);
+            let mut s = format!("60 {} {}", img.width(), img.height());
+            for p in img.pixels() {
+                s.push_str(&format!(" {}", pack_exact(p)));
+            }
+            Ok(s)
+        }
         // I path failure transparent w h p0 ... -> 62 w h idx ...
         "I" => {
             let path = *words.get(1).ok_or(())?;
